@@ -56,6 +56,20 @@ Theorem C08_solvers_request_smallest :
 Proof. exact solvers_request_smallest_all. Qed.
 Print Assumptions C08_solvers_request_smallest.
 
+(* the bond limit _update_mps looks up (compute_m_trunc -> _fixed_m_trunc: max_dims[bond]) is the limit of the bond between the two
+   active sites (two-site) / of the bond the centre moves across (one-site), in both sweep directions, single-state and state-averaged *)
+Theorem C08_trunc_bond_is_active_bond : forall (two to_right : bool) (n imps : Z),
+  fixed_bond to_right (mtrunc_idx_single to_right (sweep_cidx two to_right n imps)) = active_bond two to_right (sweep_cidx two to_right n imps) /\
+  fixed_bond to_right (mtrunc_idx_averaged to_right (sweep_cidx two to_right n imps)) = active_bond two to_right (sweep_cidx two to_right n imps).
+Proof. exact trunc_bond_is_active_bond_all. Qed.
+Print Assumptions C08_trunc_bond_is_active_bond.
+
+(* optimize_config.inverse: every local operator handed to a solver (dense matrix, preconditioner diagonal, matrix-vector product)
+   is inverse * H_eff, so that inverse = -1 runs the same variational search on -H *)
+Theorem C08_inverse_applied_everywhere : inverse_on_dense = true /\ inverse_on_diagonal = true /\ inverse_on_matvec = true.
+Proof. exact inverse_applied_everywhere_all. Qed.
+Print Assumptions C08_inverse_applied_everywhere.
+
 (* non-vacuity: a 5-site 2-site run of three sweeps makes 42 observations, 18 of them disk reads; a 1-site one 54 *)
 Example C08_sweeps_nonvacuous :
   length (obsl (optimize true 5 true 3 (fun _ => O))) = 42%nat /\
